@@ -532,3 +532,30 @@ func BoundsPredicate(g *ssa.Function) (si, ii int, ok bool) {
 	}
 	return 0, 0, false
 }
+
+// ShrinkingCursor recognises the element access of a loop of the form `for rest := s; len(rest) > 0; rest = rest[1:]`:
+// ia is rest[0] where rest is a loop-carried slice whose other edge is rest[1:]. It returns s.
+func ShrinkingCursor(ia *ssa.IndexAddr) (ssa.Value, bool) {
+	if k, ok := ConstInt(ia.Index); !ok || k != 0 {
+		return nil, false
+	}
+	ph, ok := ia.X.(*ssa.Phi)
+	if !ok || len(ph.Edges) != 2 {
+		return nil, false
+	}
+	var base ssa.Value
+	step := false
+	for _, e := range ph.Edges {
+		if sl, ok := e.(*ssa.Slice); ok && sl.X == ssa.Value(ph) && sl.High == nil {
+			if k, isC := ConstInt(sl.Low); isC && k == 1 {
+				step = true
+				continue
+			}
+		}
+		base = e
+	}
+	if !step || base == nil {
+		return nil, false
+	}
+	return base, true
+}
